@@ -32,6 +32,8 @@ def token(rng, lo=1, hi=8):
 
 def REQ(rng, method=None, extra=()):
     m = method or pick(rng, [b'GET', b'POST', b'HEAD', b'PUT', b'CONNECT', b'OPTIONS'])
+    if method is None and rng.random() < 0.04:
+        m = pick(rng, [b'', b'get', b'Head', b'CONNECT ', b'\xff', b'HEAD\x00'])
     hs = [(b':method', m, False), (b':scheme', pick(rng, [b'https', b'http']), False),
           (b':path', pick(rng, [b'/', b'/a/b?c=d', b'*']), False),
           (b':authority', pick(rng, [b'example.com', b'x', b'localhost:8080']), False)]
@@ -39,8 +41,13 @@ def REQ(rng, method=None, extra=()):
     return hs + list(extra)
 
 
+WEIRD_STATUS = [b'abc', b'', b'2xx', b'\xff\xfe', b'99', b'1000', b'+200', b' 200', b'200 ', b'2_0', b'-1', b'0', b'1e2']
+
+
 def RESP(rng, status=None, extra=()):
     s = status or pick(rng, [b'200', b'204', b'304', b'404', b'500', b'201'])
+    if status is None and rng.random() < 0.06:
+        s = pick(rng, WEIRD_STATUS)
     return [(b':status', s, False)] + list(extra)
 
 
@@ -493,8 +500,22 @@ class Gen(object):
                 out += wire.goaway(pick(rng, [0, 1, 3, 2**31 - 1]), pick(rng, ERR_CODES), small_bytes(rng) if rng.random() < 0.5 else b'')
             elif k < 0.94:
                 out += wire.frame(rng.randrange(11, 256), rng.randrange(256), pick(rng, [0, 1, 2, 3]), small_bytes(rng))
-            elif k < 0.97:
+            elif k < 0.955:
                 out += wire.frame(wire.CONTINUATION, 4, self.peer_sid(c) or 1, small_bytes(rng))
+            elif k < 0.97:
+                # a header block cut into many (possibly empty) CONTINUATION frames, around and far beyond the backlog cap
+                sid = self.peer_sid(c, new=(not rcn.client)) or 1
+                kind = 'response' if rcn.client else 'request'
+                block = wire.hpack_literal_block(header_list(rng, kind, False, 0.05, clean=True))
+                n = pick(rng, [1, 2, 62, 63, 64, 65, 66, 300, 1200])
+                first = pick(rng, [block, block[:1], b''])
+                rest = block[len(first):]
+                out += wire.frame(wire.HEADERS, (1 if rng.random() < 0.3 else 0), sid, first)
+                for i in range(n):
+                    last = (i == n - 1)
+                    frag = rest if last else (rest[:1] if rng.random() < 0.3 else b'')
+                    rest = rest[len(frag):]
+                    out += wire.frame(wire.CONTINUATION, 4 if (last and rng.random() < 0.9) else 0, sid, frag)
             else:             # malformed: bad length / wrong stream / truncated body
                 t = rng.randrange(0, 11)
                 out += wire.frame(t, rng.randrange(256), pick(rng, [0, 1, 2, 3, 2**31 + 1]), small_bytes(rng, rng.randrange(0, 12)))
